@@ -4,12 +4,12 @@
 
 use std::sync::Arc;
 
-use ff::{BatchInvert, Field, PrimeField};
+use ff::{BatchInvert, PrimeField};
 use num_bigint::BigUint;
 use num_integer::Integer;
 use num_traits::{One, Zero};
 use serde_json::{json, Value};
-use subtle::{Choice, ConditionallySelectable, ConstantTimeEq};
+use subtle::Choice;
 use vcore::{
     big::{self, bu, from_be, from_le, hexs, pow2, to_be, to_le, Fp},
     catch, hex, CaseOut, Ctx, Viol,
@@ -47,11 +47,19 @@ where
 {
     let pc = pc.clone();
     let key = format!("{}:{}", pc.name, op);
+    let op_name = op.to_string();
     (
         key,
         Box::new(move || {
             let mut out = CaseOut::batch();
+            let trace = std::env::var_os("C10_TRACE").is_some();
+            if trace {
+                eprintln!("start {}:{}", pc.name, op_name);
+            }
             let _ = f(&pc, &mut out);
+            if trace {
+                eprintln!("done  {}:{}", pc.name, op_name);
+            }
             out
         }),
     )
@@ -226,6 +234,86 @@ impl<F: PrimeField + Send + Sync> PCtx<F> {
     }
 }
 
+pub const PROBE_LIMIT_MS: u64 = 1500;
+
+/// Harness self-test hook: `C10_SELFTEST_BREAK_MODEL=<op>` makes the *model* of the unary/binary
+/// operation `<op>` wrong (adds one), which must surface as `<field>:<op>:mismatch` for every
+/// field. Never set in a normal run.
+pub fn model_broken(op: &str) -> bool {
+    static V: std::sync::OnceLock<Option<String>> = std::sync::OnceLock::new();
+    V.get_or_init(|| std::env::var("C10_SELFTEST_BREAK_MODEL").ok()).as_deref() == Some(op)
+}
+
+static PROBE_RESULTS: std::sync::Mutex<Vec<(String, String, bool)>> = std::sync::Mutex::new(Vec::new());
+
+/// Result of the up-front probe group; probes inline when there is none (replay of one case).
+pub fn ref_iter_ok(field: &str, op: &str) -> bool {
+    if let Some(r) = PROBE_RESULTS.lock().unwrap().iter().find(|r| r.0 == field && r.1 == op) {
+        return r.2;
+    }
+    let mut scratch = CaseOut::batch();
+    ref_iter_probe(field, op, &mut scratch)
+}
+
+/// The up-front probe group: one case per (field, by-reference iterator implementation).
+pub fn probe_cases() -> Cases {
+    let mut c: Cases = vec![];
+    for f in crate::probe::FIELDS {
+        for op in ["sum-ref", "product-ref"] {
+            c.push((
+                format!("{f}:{op}"),
+                Box::new(move || {
+                    let mut out = CaseOut::batch();
+                    let ok = ref_iter_probe(f, op, &mut out);
+                    let mut g = PROBE_RESULTS.lock().unwrap();
+                    g.retain(|r| !(r.0 == *f && r.1 == op));
+                    g.push((f.to_string(), op.to_string(), ok));
+                    out.sample = Some(json!({"field": f, "op": op, "terminates_with_right_answer": ok}));
+                    out
+                }),
+            ));
+        }
+    }
+    c
+}
+
+/// Probes the by-reference iterator implementation `op` ("sum-ref" / "product-ref") of `field`
+/// in a child process; returns true when it is safe (terminates, right answer) to call in-process.
+pub fn ref_iter_probe(field: &str, op: &str, out: &mut CaseOut) -> bool {
+    use crate::probe::{run_child, Probe};
+    // the confirmation re-execution of a probe that timed out runs on an otherwise idle machine
+    let seen_fail = PROBE_RESULTS.lock().unwrap().iter().any(|r| r.0 == field && r.1 == op && !r.2);
+    let r = run_child(field, op, std::time::Duration::from_millis(if seen_fail { PROBE_LIMIT_MS / 3 } else { PROBE_LIMIT_MS }));
+    let what = if op.starts_with("sum") { "iter::Sum<&Self>" } else { "iter::Product<&Self>" };
+    let d = json!({"expression": if op.starts_with("sum") { "[1, 2, 3].iter().sum::<F>()" } else { "[1, 2, 3].iter().product::<F>()" }, "probe": format!("{r:?}")});
+    match r {
+        Probe::Ok => {
+            out.eval(&format!("{op}:probe-ok"), true);
+            true
+        }
+        Probe::Timeout => {
+            out.eval(&format!("{op}:probe-timeout"), true);
+            out.viol(Viol::new(format!("{field}:{op}:nontermination"), format!("{what}: summing/multiplying an iterator of references never returns (child process killed after 1.5 s; the same expression on a type with a correct implementation returns in microseconds)"), d));
+            false
+        }
+        Probe::Crashed(s) => {
+            out.eval(&format!("{op}:probe-crash"), true);
+            out.viol(Viol::new(format!("{field}:{op}:crash"), format!("{what}: the process died ({s}), e.g. by unbounded recursion"), d));
+            false
+        }
+        Probe::Wrong(_) => {
+            out.eval(&format!("{op}:probe-wrong"), true);
+            out.viol(Viol::new(format!("{field}:{op}:mismatch"), format!("{what}: 1, 2, 3 do not give 6"), d));
+            false
+        }
+        Probe::Machinery(e) => {
+            out.counter("probe_machinery_failures", 1);
+            eprintln!("probe {field} {op}: {e}");
+            false
+        }
+    }
+}
+
 fn d1(a: &BigUint) -> Value {
     json!({"a": hexs(a)})
 }
@@ -251,7 +339,10 @@ pub fn un<F: PrimeField + Send + Sync>(
                 break;
             }
             let Some(r) = pc.guard(out, op, &mut panics, || d1(a), || real(x)) else { continue };
-            let e = model(&pc.m, a);
+            let mut e = model(&pc.m, a);
+            if model_broken(op) {
+                e = pc.m.add(&e, &bu(1));
+            }
             out.eval(&format!("{op}:ok"), PCtx::<F>::nontrivial(a));
             pc.check_val(out, op, &r, &e, || d1(a));
         }
@@ -351,7 +442,10 @@ pub fn bin<F: PrimeField + Send + Sync>(
         let mut panics = 0;
         'outer: for (_, a, x) in &pc.alpha {
             for (_, b, y) in &pc.alpha {
-                let e = model(&pc.m, a, b);
+                let mut e = model(&pc.m, a, b);
+                if model_broken(op) {
+                    e = pc.m.add(&e, &bu(1));
+                }
                 for (vn, f) in &variants {
                     if panics >= MAX_PANICS {
                         break 'outer;
@@ -921,6 +1015,12 @@ where
     // ---- sqrt_alt = sqrt_ratio(x, 1)
     c.push(cs(pc, "sqrt_alt", |pc, out| {
         let mut panics = 0;
+        // sqrt_alt is the provided method sqrt_ratio(self, ONE): a panicking sqrt_ratio is
+        // reported once, by the sqrt_ratio case
+        if catch(|| F::sqrt_ratio(&F::ONE, &F::ONE)).is_err() {
+            out.eval("sqrt_alt:skipped-sqrt_ratio-panics", true);
+            return;
+        }
         for (_, a, x) in &pc.alpha {
             if panics >= MAX_PANICS {
                 break;
@@ -991,9 +1091,13 @@ where
             }
         }
     }));
-    // ---- Sum / Product over prefixes of the alphabet, owned and by reference
+    // ---- Sum / Product over prefixes of the alphabet, owned and by reference. The by-reference
+    // implementations are first probed out of process (they may not terminate).
     c.push(cs(pc, "sum-product", |pc, out| {
         let mut panics = 0;
+        let sum_ref_ok = ref_iter_ok(pc.name, "sum-ref");
+        let prod_ref_ok = ref_iter_ok(pc.name, "product-ref");
+        out.counter("by_ref_iterator_impls_skipped_in_process", (!sum_ref_ok) as u64 + (!prod_ref_ok) as u64);
         let xs: Vec<F> = pc.alpha.iter().map(|a| a.2).collect();
         let mut acc_s = bu(0);
         let mut acc_p = bu(1);
@@ -1012,15 +1116,21 @@ where
                 out.eval("sum:ok", n >= 2);
                 pc.check_val(out, "sum", &r, &acc_s, dd);
             }
-            if let Some(r) = pc.guard(out, "sum", &mut panics, dd, || xs[..n].iter().sum::<F>()) {
-                pc.check_val(out, "sum", &r, &acc_s, dd);
+            if sum_ref_ok {
+                if let Some(r) = pc.guard(out, "sum-ref", &mut panics, dd, || xs[..n].iter().sum::<F>()) {
+                    out.eval("sum-ref:ok", n >= 2);
+                    pc.check_val(out, "sum-ref", &r, &acc_s, dd);
+                }
             }
             if let Some(r) = pc.guard(out, "product", &mut panics, dd, || xs[..n].iter().copied().product::<F>()) {
                 out.eval("product:ok", n >= 2);
                 pc.check_val(out, "product", &r, &acc_p, dd);
             }
-            if let Some(r) = pc.guard(out, "product", &mut panics, dd, || xs[..n].iter().product::<F>()) {
-                pc.check_val(out, "product", &r, &acc_p, dd);
+            if prod_ref_ok {
+                if let Some(r) = pc.guard(out, "product-ref", &mut panics, dd, || xs[..n].iter().product::<F>()) {
+                    out.eval("product-ref:ok", n >= 2);
+                    pc.check_val(out, "product-ref", &r, &acc_p, dd);
+                }
             }
         }
         let mut acc = bu(1);
@@ -1035,6 +1145,12 @@ where
             if let Some(r) = pc.guard(out, "product", &mut panics, dd, || nz[..n].iter().map(|t| t.1).product::<F>()) {
                 out.eval("product:nonzero", n >= 2);
                 pc.check_val(out, "product", &r, &acc, dd);
+            }
+            if prod_ref_ok {
+                let v: Vec<F> = nz[..n].iter().map(|t| t.1).collect();
+                if let Some(r) = pc.guard(out, "product-ref", &mut panics, dd, || v.iter().product::<F>()) {
+                    pc.check_val(out, "product-ref", &r, &acc, dd);
+                }
             }
         }
     }));
@@ -1169,7 +1285,7 @@ pub fn constants<F: PrimeField + Send + Sync>(pc: &Arc<PCtx<F>>, zeta: Option<F>
         let p = pc.p().clone();
         let n = &p - 1u32;
         let name = pc.name;
-        let mut fail = |out: &mut CaseOut, what: &str, msg: String, d: Value| {
+        let fail = |out: &mut CaseOut, what: &str, msg: String, d: Value| {
             out.viol(Viol::new(format!("{name}:const:{what}"), msg, d));
         };
         let mut panics = 0;
@@ -1184,9 +1300,11 @@ pub fn constants<F: PrimeField + Send + Sync>(pc: &Arc<PCtx<F>>, zeta: Option<F>
         // MODULUS string
         out.eval("const:MODULUS", true);
         let ms = F::MODULUS;
-        let parsed = if let Some(h) = ms.strip_prefix("0x") { BigUint::parse_bytes(h.as_bytes(), 16) } else { None };
+        // ff: "the encoding of the modulus is implementation-specific"; every type here uses hex,
+        // with or without a 0x prefix
+        let parsed = BigUint::parse_bytes(ms.trim_start_matches("0x").as_bytes(), 16);
         if parsed.as_ref() != Some(&p) {
-            fail(out, "MODULUS", format!("MODULUS string {ms} is not 0x-prefixed hex of the stated modulus"), json!({"stated": hexs(&p)}));
+            fail(out, "MODULUS", format!("MODULUS string {ms} is not the hexadecimal stated modulus"), json!({"stated": hexs(&p)}));
         }
         // the modulus the arithmetic uses: (-1) + 1 wraps to 0 and to_repr(-1) + 1 == p
         let m1 = g!("neg-one", pc.big(&-F::ONE));
@@ -1341,7 +1459,6 @@ pub fn serde_object_cases<F>(pc: &Arc<PCtx<F>>) -> Cases
 where
     F: PrimeField + midnight_curves::serde::SerdeObject + Send + Sync,
 {
-    use midnight_curves::serde::SerdeObject;
     let nl = pc.nlimbs;
     let w = nl * 8;
     let mut c: Cases = vec![];
